@@ -1,4 +1,4 @@
 INIT Init
 NEXT Next
-INVARIANTS RowsWellFormed TableSortedDisjoint SameSet
+INVARIANTS RowsWellFormed TableSortedDisjoint SameSet LexAgrees
 CHECK_DEADLOCK FALSE
